@@ -1,8 +1,10 @@
 #!/bin/bash
-# usage: tools/sweep.sh <tier> <seed>...   runs every check with each seed, appends one line per run to notes/silence.txt
+# usage: tools/sweep.sh <tier> <seed>...   runs every check (or those in $SWEEP_IDS) with each seed, appends one line per run to notes/silence.txt
+# evidence of these runs goes to work/sweep-evidence, not to evidence/
 cd "$(dirname "$0")/.."
 tier="$1"; shift
-ids=$(python3 -c "import json;print(' '.join(c['property_id'] for c in json.load(open('MANIFEST.json'))['checks']))")
+ids=${SWEEP_IDS:-$(python3 -c "import json;print(' '.join(c['property_id'] for c in json.load(open('MANIFEST.json'))['checks']))")}
+export VERIF_EVIDENCE_DIR="$PWD/work/sweep-evidence"
 for seed in "$@"; do
   for id in $ids; do
     out=$(VERIF_SEED=$seed ./check $id $tier 2>&1); rc=$?
